@@ -76,15 +76,31 @@ def model_check(rep, prop, tier, scratch):
 
 
 def histories(tier, seed):
+    """every applicable sequence of two operations (each issued by the director
+    process or by the director step) from each initial hierarchy - sampled in
+    the quick tier, extended by a random third and fourth operation in the
+    thorough tier - plus random longer histories"""
     rng = random.Random(seed + 9)
     out = []
-    depth = 2 if tier == 'quick' else 3
     for ini in INITIALS:
-        hs = list(sr.all_histories(depth, model_of(ini), names=['a', 'b', 'c'],
+        hs = list(sr.all_histories(2, model_of(ini), names=['a', 'b', 'c'],
                                    tpls=('T1', 'T2', 'T3')))
-        if tier == 'quick' and len(hs) > 400:
+        if tier == 'quick':
             rng.shuffle(hs)
-            hs = hs[:400]
+            hs = hs[:260]
+        else:
+            ext = []
+            for h in hs:
+                if h[-1]['op'] == 'addex':
+                    ext.append(h)
+                    continue
+                m = model_of(ini)
+                for o in h:
+                    m = sr.apply_model(m, o)
+                tail = sr.random_history(rng, 2, m, names=['a', 'b', 'c'],
+                                         tpls=('T1', 'T2', 'T3', 'T4', 'T5'), max_comps=4)
+                ext.append(h + tail)
+            hs = ext
         out += [(ini, h) for h in hs]
     nrand = 300 if tier == 'quick' else 3000
     for i in range(nrand):
